@@ -213,3 +213,85 @@ Proof.
   rewrite H. split; [|apply witness2_not_linearizable].
   intros o [<-|[<-|[<-|[]]]]; exact I.
 Qed.
+
+(* ---- third witness: online index compaction ----
+   Set(k0:=1) = tx 1 is committed, indexed and acknowledged.  CompactIndex re-opens the index from a
+   copy dumped before tx 1 (indexed := 0) while the wait hub still says "indexed up to 1".  A
+   conditional Set(k0:=2) with KeyMustNotExist(k0), invoked afterwards, passes its wait, has its
+   precondition evaluated on the stale (empty) index and commits as tx 2. *)
+Definition C2 : wop := WSet [(0, 2)%N] [PMustNotExist 0].
+
+Definition witness3_hist : history :=
+  [ mkOp 1 (Some 2%N) (CW S1) (Some (ResTx 1));
+    mkOp 3 (Some 4%N) (CW C2) (Some (ResTx 2)) ].
+
+Lemma witness3_reach :
+  exists m0 m1 m, reach true m0 /\ mstep true m0 (LCommit 1 C2 [EKv 0 2]) m1 /\
+                  pre_all (m_committed m0) C2 = false /\
+                  reach true m /\ m_hist m = witness3_hist.
+Proof.
+  pose proof (reach_init true) as R.
+  eapply reach_step in R; [|exact (s_invoke true _ (CW S1) false ltac:(discriminate))]. cbn in R.
+  eapply reach_step in R; [|refine (s_commit true _ 0 S1 [EKv 0 1] 0 false _ _ _ _ _); dec]. cbn in R.
+  eapply reach_step in R; [|refine (s_index true _ 0 [] _ _); dec]. cbn in R.
+  eapply reach_step in R; [|refine (s_return_write true _ 0 1 false _ _ _); try dec; right; dec]. cbn in R.
+  eapply reach_step in R; [|refine (s_compact true _ 0 _); dec]. cbn in R.
+  eapply reach_step in R; [|exact (s_invoke true _ (CW C2) false ltac:(discriminate))]. cbn in R.
+  pose proof R as R0.
+  match type of R0 with reach _ ?m0 =>
+    assert (St : mstep true m0 (LCommit 1 C2 [EKv 0 2])
+              (mkM (m_n m0) (m_inv m0) (m_ret m0) (m_call m0)
+                 (set (m_res m0) 1 (Some (ResTx (slen (m_committed m0) + 1)%N)))
+                 (set (m_phase m0) 1 (PCommitted (S (length (m_committed m0))) false))
+                 (m_clock m0) (m_committed m0 ++ [[EKv 0 2]]) (m_indexed m0) (m_hub m0) (m_lo m0)
+                 (m_hi m0 ++ [1]) (m_split m0)))
+      by (refine (s_commit true _ 1 C2 [EKv 0 2] 1 false _ _ _ _ _); dec)
+  end.
+  eapply reach_step in R; [|exact St]. cbn in R.
+  eapply reach_step in R; [|refine (s_index true _ 1 [] _ _); dec]. cbn in R.
+  eapply reach_step in R; [|refine (s_return_write true _ 1 2 false _ _ _); try dec; left; dec].
+  cbn in R.
+  eexists _, _, _. split; [exact R0|]. split; [exact St|]. split; [vm_compute; reflexivity|].
+  split; [exact R|]. vm_compute. reflexivity.
+Qed.
+
+Lemma witness3_not_linearizable : ~ linearizable witness3_hist.
+Proof.
+  intros (lin & ND & Hin & Hall & _ & s' & Hrun).
+  assert (H0 : In 0 lin) by (apply (Hall 0 _ eq_refl); reflexivity).
+  assert (H1 : In 1 lin) by (apply (Hall 1 _ eq_refl); reflexivity).
+  assert (Hdom : forall i, In i lin -> i = 0 \/ i = 1).
+  { intros i Hi. destruct (Hin i Hi) as (o & Ho & _).
+    destruct i as [|[|i]]; auto. simpl in Ho. destruct i; discriminate. }
+  destruct lin as [|a lin]; [destruct H0|].
+  destruct (Hdom a (or_introl eq_refl)) as [-> | ->].
+  - (* Set first: the conditional Set must then be refused *)
+    simpl in Hrun. destruct Hrun as (r & s1 & Hr & Hs & Hrun). inversion Hr; subst r.
+    destruct Hs as [(t & Ap & _ & ->)|(e & _ & Bad & _)]; [|discriminate].
+    vm_compute in Ap. inversion Ap; subst t.
+    destruct lin as [|b lin]; [destruct H1 as [?|[]]; discriminate|].
+    destruct (Hdom b (or_intror (or_introl eq_refl))) as [-> | ->].
+    + inversion ND as [|? ? Hn _]. exfalso. apply Hn. simpl; auto.
+    + simpl in Hrun. destruct Hrun as (r & s2 & Hr2 & Hs & _). inversion Hr2; subst r.
+      destruct Hs as [(t & Ap2 & _ & _)|(e & _ & Bad & _)]; [|discriminate].
+      vm_compute in Ap2. discriminate.
+  - (* conditional Set first: it cannot be transaction 2 *)
+    simpl in Hrun. destruct Hrun as (r & s1 & Hr & Hs & _). inversion Hr; subst r.
+    destruct Hs as [(t & _ & Bad & _)|(e & _ & Bad & _)]; discriminate.
+Qed.
+
+Definition only_sets (h : history) : Prop :=
+  forall o, In o h -> match o_call o with CW (WSet _ _) => True | _ => False end.
+
+(* after an index compaction a conditional write can be committed although its precondition is
+   false on the state it is appended to, and the resulting history is not linearizable *)
+Theorem compaction_refuted_proof :
+  exists mode m0 i w t m1 m,
+    reach mode m0 /\ mstep mode m0 (LCommit i w t) m1 /\ pre_all (m_committed m0) w = false /\
+    reach mode m /\ only_sets (m_hist m) /\ ~ linearizable (m_hist m).
+Proof.
+  destruct witness3_reach as (m0 & m1 & m & R0 & St & Pf & R & H).
+  exists true, m0, 1, C2, [EKv 0 2], m1, m. repeat split; auto.
+  - rewrite H. intros o [<-|[<-|[]]]; exact I.
+  - rewrite H. apply witness3_not_linearizable.
+Qed.
